@@ -17,7 +17,9 @@ class P:
     rule = ("one fresh process per run; the ops after `||` are the process's FIRST engine calls, one thread each, released together by "
             "a barrier. (a) forced initialisation interleavings: the init probe hook parks the initialising thread for 150 ms before stage "
             "0 or after each of the four built-in registration stages while the other threads parse / execute / register; (b) plain races "
-            "of 2-8 first calls; (c) registrations racing evaluations that use the registered name. Oracle: no panic, no deadlock, and "
+            "of 2-8 first calls; (c) registrations racing evaluations that use the registered name, re-registrations inside the window in which "
+            "the replaced handler is dropped, registrations arriving while an evaluation is inside a handler, and 100 rounds per process of a "
+            "registration racing six first uses of that spelling, each followed by a sequential use. Oracle: no panic, no deadlock, and "
             "every call's result (value and final context; logs are interleaved and ignored) is one that the sequential model produces "
             "under some order of the same calls (all permutations are run through the extracted model). "
             "Non-trivial = distinct run with >= 2 concurrent calls.")
@@ -73,30 +75,74 @@ class P:
             for reg in regs4:
                 items.append(("H:61:rs(%s) H:70:qZ120.rn(0,1,0) CF:1:%s:70 PARSE:%s || EXEC:1:%s ~40/%s" % (hx("h61"), hx("slow"), hx("1"), hx(prog), reg),
                               ("reg-inside-handler", reg.split(":")[0], 4)))
+        # a registration racing the FIRST uses of that very spelling, many rounds in one process (threads of a round are released
+        # together), each round followed by a sequential use: once register_* has returned and the racing calls are over, the
+        # operator is in force - whatever the racing first uses did to caches on the way
+        for kind in "PSIF":
+            for rep in range(3 if tier == "quick" else 40):
+                ops = ["H:61:rs(%s)" % hx("h61"), "PARSE:" + hx("1")]
+                for k in range(100):
+                    w = "w%s%d%d" % (kind.lower(), rep, k)
+                    if kind == "P": reg, use, post = "REGP:%s:61" % hx(w), "PARSE:" + hx("%s 1" % w), "EXEC:1:" + hx("%s 5" % w)
+                    elif kind == "S": reg, use, post = "REGS:%s:61" % hx(w), "PARSE:" + hx("1 %s" % w), "EXEC:1:" + hx("5 %s" % w)
+                    elif kind == "I": reg, use, post = "REGI:%s:6f:0:0:61" % hx(w), "PARSE:" + hx("1 %s 2" % w), "EXEC:1:" + hx("5 %s 6" % w)
+                    else: reg, use, post = "REGF:%s:61" % hx(w), "EXEC:2:" + hx("%s(1)" % w), "EXEC:1:" + hx("%s(5)" % w)
+                    # the registering thread is spawned last (it then reaches the barrier last and is the one that releases the
+                    # six readers, which are already waiting), or among the readers
+                    uses = [use] * 6
+                    par = uses + [reg] if k % 3 else uses[:3] + [reg] + uses[3:]
+                    ops += ["||"] + par + [";;", post]
+                items.append((" ".join(ops), ("first-use-race", kind, 5)))
         return flow.mk_cases("conc", items)
 
+    @staticmethod
+    def _rounds(ops):
+        """flat indices of the ops of every parallel round (`||` opens a round, `;;` or the end of the line closes it)"""
+        rounds, cur = [], None
+        for idx, o in enumerate(ops):
+            if o == "||":
+                cur = []; rounds.append(cur)
+            elif o == ";;":
+                cur = None
+            elif cur is not None:
+                cur.append(idx)
+        return rounds
+
     def run_model(self, lines):
-        # the sequential model on every order of the concurrent calls: the set of results each call may return
+        # the sequential model on every order of the concurrent calls: the set of results each call may return.
+        # One round: all permutations (two when there are more than four calls); several rounds: every round in the listed
+        # order and every round reversed (the families with several rounds race one registration against uses of that name).
         extra = []
         for l in lines:
             cid, rest = l.split(" ", 1)
             ops = rest.split(" ")
             if "||" not in ops: continue
-            i = ops.index("||")
-            pre, par = ops[:i], ops[i + 1:]
-            n = len(par)
-            perms = list(itertools.permutations(range(n))) if n <= 4 else [tuple(range(n)), tuple(reversed(range(n)))]
-            for pi, perm in enumerate(perms):
-                extra.append("%s~%d %s" % (cid, pi, " ".join(pre + ["||"] + [par[j] for j in perm])))
-                self.allowed.setdefault(cid, {"perms": {}, "n": n, "npre": len(pre)})["perms"][pi] = perm
+            rounds = self._rounds(ops)
+            if len(rounds) == 1:
+                n = len(rounds[0])
+                perms = list(itertools.permutations(range(n))) if n <= 4 else [tuple(range(n)), tuple(reversed(range(n)))]
+                variants = [[p_] for p_ in perms]
+            else:
+                variants = [[tuple(range(len(r))) for r in rounds], [tuple(reversed(range(len(r)))) for r in rounds]]
+            info = self.allowed.setdefault(cid, {"maps": {}, "first": ops.index("||"), "nops": len(ops)})
+            for vi, var in enumerate(variants):
+                new_ops = list(ops); back = {}
+                for r, p_ in zip(rounds, var):
+                    for pos, j in enumerate(p_):
+                        new_ops[r[pos]] = ops[r[j]]; back[r[pos]] = r[j]
+                extra.append("%s~%d %s" % (cid, vi, " ".join(new_ops)))
+                info["maps"][vi] = back
         res = core.run_model(lines + extra)
         self.nperm = len(extra)
         for cid, info in self.allowed.items():
-            sets = [set() for _ in range(info["n"])]
-            for pi, perm in info["perms"].items():
-                out = res.get("%s~%d" % (cid, pi), "").split(" ")[info["npre"] + 1:]
-                for pos, j in enumerate(perm):
-                    if pos < len(out): sets[j].add(strip_log(out[pos].rsplit(":", 1)[0] if out[pos].endswith((":E", ":I")) else out[pos]))
+            sets = {}
+            for vi, back in info["maps"].items():
+                out = res.get("%s~%d" % (cid, vi), "").split(" ")
+                for pos in range(info["first"] + 1, min(len(out), info["nops"])):
+                    o = out[pos]
+                    if o in ("||", ";;"): continue
+                    o = o.rsplit(":", 1)[0] if o.endswith((":E", ":I")) else o
+                    sets.setdefault(back.get(pos, pos), set()).add(strip_log(o))
             info["sets"] = sets
         return res
 
@@ -112,11 +158,13 @@ class P:
     def _check(self, case, impl):
         info = self.allowed.get(case.cid)
         if not info or "sets" not in info: return None
-        outs = impl.split(" ")[info["npre"] + 1:]
-        if len(outs) != info["n"]: return "missing results: " + impl[:80]
-        for j, o in enumerate(outs):
-            if strip_log(o) not in info["sets"][j]:
-                return "call %d returned %s, not a result of any sequential order %s" % (j, strip_log(o)[:120], sorted(info["sets"][j])[:3])
+        outs = impl.split(" ")
+        if len(outs) != info["nops"]: return "missing results: " + impl[:80]
+        for pos in range(info["first"] + 1, info["nops"]):
+            o = outs[pos]
+            if o in ("||", ";;"): continue
+            if strip_log(o) not in info["sets"].get(pos, set()):
+                return "call %d returned %s, not a result of any sequential order %s" % (pos - info["first"] - 1, strip_log(o)[:120], sorted(info["sets"].get(pos, set()))[:3])
         return None
 
     def compare(self, case, impl, model):
